@@ -23,6 +23,8 @@ def alphabets(tier: str) -> Any:
 
 def items(tier: str) -> List[Any]:
     full, small = alphabets(tier)
+    for a in (small[0], small[1], ["txn Fee", "int 1000", ">"]):
+        full = full + A.cross_block(a)
     out: List[Any] = [("direct", s) for s in spaces.layered(full, small, tier)]
     sh = []
     for a in small[:2] + [["txn Fee", "int 1000", ">"], ["int 1000", "txn Fee", "<="]]:
@@ -32,6 +34,13 @@ def items(tier: str) -> List[Any]:
         if s not in seen:
             seen.add(s)
             out.append(("shuffle", s))
+    from mc.gen import raw  # pylint: disable=import-outside-toplevel
+
+    for atom in [["txn Fee", "int 1000", "<="], ["txn Fee", "int 1000", ">"]]:
+        for s in raw.with_atom(atom, 4 if tier == "quick" else 5):
+            if s not in seen:
+                seen.add(s)
+                out.append(("g1a", s))
     for s in spaces.unresolvable_constants([x for m, x in out if m == "direct"], 3000 if tier == "quick" else 20000):
         if s not in seen:
             seen.add(s)
@@ -47,6 +56,13 @@ def worker(item: Any, res: runner.Result) -> None:
     from mc import sem, abstract  # pylint: disable=import-outside-toplevel
 
     mode, src = item
+    if mode == "g1a":
+        from mc.asm import tokenize  # pylint: disable=import-outside-toplevel
+        from mc.refcfg import RefGraph  # pylint: disable=import-outside-toplevel
+
+        if not RefGraph(tokenize(src)).entered_only_through_callsub():
+            res.count("filtered_bodies_not_entered_only_through_callsub")
+            return
     try:
         case = sem.Case(src)
     except BaseException as e:  # pylint: disable=broad-except
@@ -64,7 +80,7 @@ def worker(item: Any, res: runner.Result) -> None:
                     res.violation("C09.sound.fee-above-bound", item, block=b.entry_instr.line, fee=top, max_fee=ctx.max_fee,
                                   env=repr(run.env))
     outcome = tuple((b.entry_instr.line, case.ctx(b).max_fee, case.ctx(b).max_fee_unknown) for b in case.function.blocks)
-    if mode == "direct":
+    if mode in ("direct", "g1a"):
         n_fee = sum(1 for l in case.lines if l.op == "txn" and l.args[0] == "Fee")
         abstract.check_c09_abstract(case, item, res, single_atom=n_fee == 1)
     res.outcome(outcome)
